@@ -184,13 +184,13 @@ def coq_build(projs):
     return True, "\n".join(logs), None
 
 
-def props_check(proj, pid):
+def props_check(proj, pid, workroot=None):
     """Re-check coq/<proj>/props/<pid>.v with coqc; return dict(ok, theorems, assumptions, log)."""
     d = project_dir(proj)
     f = os.path.join(d, "props", pid + ".v")
     src = strip_comments(open(f).read())
     theorems = re.findall(r"^\s*(?:Theorem|Lemma|Corollary)\s+([A-Za-z0-9_']+)", src, re.M)
-    work = os.path.join(ROOT, ".work", pid, "props")
+    work = os.path.join(workroot or os.path.join(ROOT, ".work", "%s.%d" % (pid, os.getpid())), "props")
     os.makedirs(work, exist_ok=True)
     shutil.copy(f, os.path.join(work, pid + "_recheck.v"))
     rc, out = sh(["coqc"] + project_flags(proj) + [pid + "_recheck.v"], cwd=work, timeout=900)
@@ -344,8 +344,11 @@ def load_findings():
 class Ctx:
     def __init__(self, pid, tier, seed, replay=None):
         self.pid, self.tier, self.seed, self.replay = pid, tier, seed, replay
+        self.check_pid = pid       # the property this run was started for (drivers may swap self.pid temporarily)
         self.t0 = time.time()
-        self.work = os.path.join(ROOT, ".work", pid)
+        # one scratch directory per run (two runs of the same check, e.g. a seeded-change run next to a plain one,
+        # must not wipe each other's files)
+        self.work = os.path.join(ROOT, ".work", "%s.%d" % (pid, os.getpid()))
         shutil.rmtree(self.work, ignore_errors=True)
         os.makedirs(self.work, exist_ok=True)
         self.violations = []
@@ -365,7 +368,12 @@ class Ctx:
         if fid in self.known_printed:
             return
         self.known_printed.add(fid)
-        self.say("KNOWN-FINDING: property=%s %s %s" % (self.pid, fid, what))
+        owner = next((f.get("property") for f in load_findings() if f.get("id") == fid), self.pid)
+        if owner == self.check_pid:
+            self.say("KNOWN-FINDING: property=%s %s %s" % (owner, fid, what))
+        else:
+            # a finding listed for another property that this check's shared machinery also runs into
+            self.say("NOTE: known finding %s of property %s also shows in this run: %s" % (fid, owner, what))
 
     def finding_status(self, fid):
         for f in self.findings:
@@ -401,7 +409,7 @@ class Ctx:
         if not ok:
             self.violation(dict(kind="coq-build-failed", broken="first failing file: %s" % where, log=log[-3000:]), nofail=True)
             return False
-        pc = props_check(proj, self.pid)
+        pc = props_check(proj, self.pid, self.work)
         self.assumptions = dict(closed_under_global_context=pc["closed"], axioms=pc["axioms"], file=pc["file"])
         for t in pc["theorems"]:
             self.oblige("theorem %s (%s)" % (t, pc["file"]), pc["ok"])
@@ -458,6 +466,8 @@ class Ctx:
     def cleanup(self):
         if not os.environ.get("VERIF_KEEP"):
             shutil.rmtree(self.work, ignore_errors=True)
+            for d in glob.glob(os.path.join(ROOT, ".work", "*.%d" % os.getpid())):
+                shutil.rmtree(d, ignore_errors=True)
 
     def exit_code(self):
         return 1 if self.violations else 0
